@@ -652,7 +652,7 @@ def deletion_list(R, ctx, rid="C11.delete", status_rid=None):
                 R.ob(rid, "%s|addition@%d|asks-in-place" % (short, n), g, ctx.where(f, c.get("ln")),
                      "guarded by is_in_place" if g else "a path is scheduled for deletion without asking whether the item is processed in place")
                 if status_rid:
-                    st = M.guarded(fa, c, status)
+                    st = M.guarded(fa, c, status, depth=1)
                     R.ob(status_rid, "%s|addition@%d|whatever-the-status" % (short, n), not st, ctx.where(f, c.get("ln")),
                          "independent of the processing status" if not st else "the output of a removed source is only deleted for some processing statuses: "
                          "an item restarted (edited, or a dependency edited) and removed before the next pass leaves its stale output behind")
